@@ -78,6 +78,8 @@ def probe_score():
     p.add(S.KeySignature(-3, "minor"), 0)
     p.add(S.Clef(1, "G", 2, 0), 0)
     p.add(S.Clef(2, "F", 4, -1), 0)
+    p.add(S.Staff(1, 5), 0)
+    p.add(S.Clef(2, "G", 2, None), 96)
 
     def note(cls, t, d, **kw):
         o = cls(**kw)
@@ -204,7 +206,7 @@ def gen_c03():
         notes.append("import: %s" % type(e).__name__)
     # the probes the theorems name must exist
     expected = (["note_%s" % i for i in ("n1", "n2", "n3", "n4", "g1", "n5", "t1", "t2", "t3", "u1", "r1", "b1", "n6")]
-                + ["dir_%d" % i for i in range(1, 8)] + ["sound_1", "attr_1"] + ["bar_%d" % i for i in range(1, 6)]
+                + ["dir_%d" % i for i in range(1, 8)] + ["sound_1", "attr_1", "attr_2"] + ["bar_%d" % i for i in range(1, 6)]
                 + ["harm_%d" % i for i in range(1, 4)] + ["print_1", "print_2"] + ["pl_%d" % i for i in range(1, 7)])
     for k in expected:
         if k not in probes:
